@@ -95,6 +95,12 @@ type Snap = BTreeMap<u32, (String, Vec<u8>)>;
 static SEEN_IMAGES: parking_lot::Mutex<std::sync::LazyLock<HashSet<u128>>> =
     parking_lot::Mutex::new(std::sync::LazyLock::new(HashSet::new));
 
+/// Forget which crash images were judged already (replays judge the same images again).
+pub fn reset_image_cache() {
+    SEEN_IMAGES.lock().clear();
+}
+
+
 /// Writes a file image sparsely (trailing zeros become a hole).
 fn write_image(path: &Path, bytes: &[u8]) {
     let used = bytes.iter().rposition(|b| *b != 0).map_or(0, |p| p + 1);
